@@ -134,7 +134,9 @@ def check_case(case):
                 if not num_close(val(v), want[x], abs_=ABS_SLACK):
                     viol(ob, "wrong-value", x, val(v), want[x], pname)
         # materialize
-        n = min(case["maxlen"], 3)
+        # bound 4 on small grammars: the first bound at which an unbalanced derivation is higher than a balanced one
+        # (strengthened after seeded change C02-10); enumeration is exponential in the bound, hence 3 elsewhere
+        n = min(case["maxlen"], 4) if (len(g.rules) <= 5 and len(g.V) <= 2 and case["rename"] == "id") else min(case["maxlen"], 3)
         for m in range(0, n + 1):
             st, lang = call(cfg.materialize, m)
             out["n"] += 1
